@@ -3,6 +3,7 @@ Line-protocol driver: dispatch on the first word of each line.
 -/
 import Univers.Driver.Util
 import Univers.Driver.Alpm
+import Univers.Driver.Deb
 import Univers.Driver.Gem
 import Univers.Driver.Gentoo
 import Univers.Driver.Openssl
@@ -12,7 +13,7 @@ import Univers.Driver.Vers
 
 namespace Univers.Driver
 
-def handlers : List (List String → Option String) := [alpmCmd, gemCmd, gentooCmd, opensslCmd, rpmCmd, semverCmd, versCmd]
+def handlers : List (List String → Option String) := [alpmCmd, debCmd, gemCmd, gentooCmd, opensslCmd, rpmCmd, semverCmd, versCmd]
 
 def answer (line : String) : String :=
   let ws := (line.splitOn " ").filter (· ≠ "")
